@@ -236,6 +236,13 @@ func (k *Keeper) GetOptedInOperatorListByAVS(ctx sdk.Context, avsAddr string) ([
 			return nil, err
 		}
 		if avsAddr == keys[1] {
+			// the record of an operator that has opted out stays in the store with its
+			// opted-out height set: such an operator is not opted in
+			var optedInfo operatortypes.OptedInfo
+			k.cdc.MustUnmarshal(iterator.Value(), &optedInfo)
+			if optedInfo.OptedOutHeight != operatortypes.DefaultOptedOutHeight {
+				continue
+			}
 			operatorList = append(operatorList, keys[0])
 		}
 	}
